@@ -64,3 +64,17 @@
 ; cardinality is the size of the key set (trusted finite-set facts, true of every reachable heap)
 (assert (forall ((h Heap) (m Int)) (! (<= 0 (select (MCard h) m)) :pattern ((select (MCard h) m)))))
 (assert (forall ((h Heap) (m Int) (k Str)) (! (=> (select (select (MDom h) m) k) (<= 1 (select (MCard h) m))) :pattern ((select (select (MDom h) m) k)))))
+
+; acyclicity of values (the hypothesis of the properties that quantify over trees): a ghost rank that
+; strictly decreases from a container to its elements / field values. Used only for termination.
+(declare-fun rank (Heap Val) Int)
+(assert (forall ((h Heap) (v Val)) (! (<= 0 (rank h v)) :pattern ((rank h v)))))
+(assert (forall ((h Heap) (o Int) (k Int)) (!
+  (=> (and (<= 0 k) (< k (select (Llen h) (impl o))))
+      (< (rank h (select (select (Mem h) (select (Larr h) (impl o))) k)) (rank h (VList o))))
+  :pattern ((rank h (VList o)) (select (select (Mem h) (select (Larr h) (impl o))) k)))))
+(assert (forall ((h Heap) (o Int) (k Str)) (!
+  (=> (select (select (MDom h) (select (Omap h) (impl o))) k)
+      (< (rank h (select (select (MVal h) (select (Omap h) (impl o))) k)) (rank h (VObj o))))
+  :pattern ((rank h (VObj o)) (select (select (MVal h) (select (Omap h) (impl o))) k)))))
+(assert (forall ((h Heap) (h2 Heap) (v Val)) (! (=> (ext h h2) (= (rank h v) (rank h2 v))) :pattern ((ext h h2) (rank h2 v)))))
